@@ -251,56 +251,67 @@ func (k *chainRun) probe(st sm.State, height int64, hRel int) {
 			c.HarnessError("mempool stub returned %d bytes for a budget of %d", k.mp.lastSz, k.mp.lastMax)
 			continue
 		}
-		realErr, vpan := safeValidate(k.c1.Exec, st, blk)
-		why := refValidBlock(k.cache, st, blk, func(types.Evidence) bool { return true })
-		if vpan != nil || realErr != nil || why != "" {
-			desc["real_verdict"], desc["ref_verdict"], desc["validate_panic"] = fmt.Sprint(realErr), why, fmt.Sprint(vpan)
-			c.Violation("proposal-invalid: "+reasonClass(why), "the proposer's own block does not pass validation", desc)
-			continue
-		}
-		pb, err := blk.ToProto()
-		if err != nil {
-			c.HarnessError("proposal block ToProto: %v", err)
-			continue
-		}
-		size := int64(pb.Size())
-		// the consensus rule: parts are accumulated and the running byte size is compared with MaxBytes
-		acc := types.NewPartSetFromHeader(ps.Header())
-		partsOver := int64(0)
-		for i := 0; i < int(ps.Total()); i++ {
-			if _, err := acc.AddPart(ps.GetPart(i)); err != nil {
-				c.HarnessError("AddPart of the proposer's own part: %v", err)
-			}
-			if acc.ByteSize() > maxB {
-				partsOver = acc.ByteSize()
-			}
-		}
-		c.Max("proposal.max block size / MaxBytes (permille)", size*1000/maxB)
-		if len(lastCommit.Signatures) <= len(st.Validators.Validators) {
-			c.Max("proposal.max block size / MaxBytes (permille), commit not larger than budgeted", size*1000/maxB)
-			if maxB-size < 1000 {
-				c.Count(fmt.Sprintf("proposal.slack below MaxBytes: %d..%d bytes", (maxB-size)/50*50, (maxB-size)/50*50+49), 1)
-			}
-		}
-		if lc, nv := len(lastCommit.Signatures), len(st.Validators.Validators); lc > nv {
-			c.Count("proposal.after-valset-shrink", 1)
-		} else if lc < nv {
-			c.Count("proposal.after-valset-growth", 1)
-		}
-		if size > maxB || partsOver > 0 {
-			desc["block_size"], desc["parts_byte_size"], desc["excess"] = size, acc.ByteSize(), size-maxB
-			// attributed to the shrink only if the commit slots that the budget did not count explain the excess
-			if unbudgeted := int64(len(lastCommit.Signatures)-len(st.Validators.Validators)) * 111; unbudgeted > 0 && size-maxB <= unbudgeted {
-				c.Violation("proposal-oversize-after-valset-shrink",
-					fmt.Sprintf("CreateProposalBlock budgets the commit for %d validators (Validators) but the block carries the %d-slot commit of LastValidators: block of %d bytes > MaxBytes %d (and the part-size rule of addProposalBlockPart rejects it)",
-						len(st.Validators.Validators), len(lastCommit.Signatures), size, maxB), desc)
-			} else {
-				c.Violation("proposal-oversize", fmt.Sprintf("proposer block of %d bytes exceeds Block.MaxBytes %d", size, maxB), desc)
-			}
-			continue
-		}
-		c.Count("proposal.fits", 1)
+		k.judgeProposal("proposal", st, lastCommit, blk, ps, desc)
 	}
+}
+
+// judgeProposal decides a block returned by CreateProposalBlock: (a) both
+// validators accept it in the proposer's own state, (b) its protobuf size is
+// within Block.MaxBytes and the part set passes the accumulation rule of
+// consensus (addProposalBlockPart).  Counters are prefixed with pfx.
+func (k *chainRun) judgeProposal(pfx string, st sm.State, lastCommit *types.Commit, blk *types.Block, ps *types.PartSet, desc map[string]interface{}) bool {
+	c := k.c
+	maxB := st.ConsensusParams.Block.MaxBytes
+	realErr, vpan := safeValidate(k.c1.Exec, st, blk)
+	why := refValidBlock(k.cache, st, blk, func(types.Evidence) bool { return true })
+	if vpan != nil || realErr != nil || why != "" {
+		desc["real_verdict"], desc["ref_verdict"], desc["validate_panic"] = fmt.Sprint(realErr), why, fmt.Sprint(vpan)
+		c.Violation("proposal-invalid: "+reasonClass(why), "the proposer's own block does not pass validation", desc)
+		return false
+	}
+	pb, err := blk.ToProto()
+	if err != nil {
+		c.HarnessError("proposal block ToProto: %v", err)
+		return false
+	}
+	size := int64(pb.Size())
+	// the consensus rule: parts are accumulated and the running byte size is compared with MaxBytes
+	acc := types.NewPartSetFromHeader(ps.Header())
+	partsOver := int64(0)
+	for i := 0; i < int(ps.Total()); i++ {
+		if _, err := acc.AddPart(ps.GetPart(i)); err != nil {
+			c.HarnessError("AddPart of the proposer's own part: %v", err)
+		}
+		if acc.ByteSize() > maxB {
+			partsOver = acc.ByteSize()
+		}
+	}
+	c.Max(pfx+".max block size / MaxBytes (permille)", size*1000/maxB)
+	if len(lastCommit.Signatures) <= len(st.Validators.Validators) {
+		c.Max(pfx+".max block size / MaxBytes (permille), commit not larger than budgeted", size*1000/maxB)
+		if maxB-size < 1000 {
+			c.Count(fmt.Sprintf("%s.slack below MaxBytes: %d..%d bytes", pfx, (maxB-size)/50*50, (maxB-size)/50*50+49), 1)
+		}
+	}
+	if lc, nv := len(lastCommit.Signatures), len(st.Validators.Validators); lc > nv {
+		c.Count(pfx+".after-valset-shrink", 1)
+	} else if lc < nv {
+		c.Count(pfx+".after-valset-growth", 1)
+	}
+	if size > maxB || partsOver > 0 {
+		desc["block_size"], desc["parts_byte_size"], desc["excess"] = size, acc.ByteSize(), size-maxB
+		// attributed to the shrink only if the commit slots that the budget did not count explain the excess
+		if unbudgeted := int64(len(lastCommit.Signatures)-len(st.Validators.Validators)) * 111; unbudgeted > 0 && size-maxB <= unbudgeted {
+			c.Violation("proposal-oversize-after-valset-shrink",
+				fmt.Sprintf("CreateProposalBlock budgets the commit for %d validators (Validators) but the block carries the %d-slot commit of LastValidators: block of %d bytes > MaxBytes %d (and the part-size rule of addProposalBlockPart rejects it)",
+					len(st.Validators.Validators), len(lastCommit.Signatures), size, maxB), desc)
+		} else {
+			c.Violation("proposal-oversize", fmt.Sprintf("proposer block of %d bytes exceeds Block.MaxBytes %d", size, maxB), desc)
+		}
+		return false
+	}
+	c.Count(pfx+".fits", 1)
+	return true
 }
 
 // ---------------------------------------------------------------- replica trip
@@ -550,74 +561,94 @@ func evidencePanicProbe(c *verdict.Ctx) {
 }
 
 type replayCase struct {
-	Case int `json:"case"`
+	Stream string `json:"stream"`
+	Case   int    `json:"case"`
+}
+
+type job struct {
+	stream string
+	idx    int
 }
 
 func Run(c *verdict.Ctx) int {
 	c.Level = "exploration"
-	c.Rule = "a case is (chain index, height, perturbation | proposal mode | replica step): a call of the real ValidateBlock / CreateProposalBlock / ApplyBlock whose outcome is compared with the reference predicate, the size limits or the second replica; distinct by that triple; non-trivial because every chain has its own validator set, powers, commit flags and timestamps, parameters and churn"
+	c.Rule = "a case is (chain index, height, perturbation | proposal mode | replica step) or (real-mempool scenario, proposal number): a call of the real ValidateBlock / CreateProposalBlock / ApplyBlock whose outcome is compared with the reference predicate, the size limits or the second replica; distinct by that triple; non-trivial because every chain has its own validator set, powers, commit flags and timestamps, parameters and churn"
 	c.Assume("SHA-256, ed25519 (standard library) and the generated protobuf marshallers are shared with the implementation",
 		"the weighted-median convention is the one stated in DESIGN.md C06 (earliest time reaching floor(T'/2) of the signed power, nil votes included)",
 		"evidence admissibility is not judged here: the installed evidence pool admits everything, only the hash binding and the byte limit are compared",
 		"evidence size = protobuf size of the evidence list as embedded in the block",
 		"commits whose slot addresses differ from the validator at that index, absent slots that keep other fields, and non-signature fields of the empty first commit are recorded as exploratory only",
-		"app hashes <= 32 bytes and chain ids <= 50 bytes (header size budget)")
+		"app hashes <= 32 bytes and chain ids <= 50 bytes (header size budget)",
+		"real-mempool stage: the application accepts every generated transaction with gas 1 and Block.MaxGas = -1, so only the byte budget limits a reap")
 	heights := 12
-	var idxs []int
+	var jobsList []job
 	if p := c.Replay(); p != "" {
 		var rc replayCase
 		if err := verdict.LoadReplay(p, &rc); err != nil {
 			c.HarnessError("cannot load replay file: %v", err)
 			return c.Finish(0)
 		}
-		idxs = []int{rc.Case}
+		if rc.Stream == "" {
+			rc.Stream = "chain"
+		}
+		jobsList = []job{{rc.Stream, rc.Case}}
 	} else {
 		n := c.N(150, 5000)
+		// the few long cases first, so that they do not form the tail
 		for i := 0; i < n; i++ {
-			idxs = append(idxs, i)
+			if i%40 == 4 {
+				jobsList = append(jobsList, job{"chain", i})
+			}
+		}
+		for i, m := 0, c.N(144, 3000); i < m; i++ {
+			jobsList = append(jobsList, job{"realpool", i})
+		}
+		for i := 0; i < n; i++ {
+			if i%40 != 4 {
+				jobsList = append(jobsList, job{"chain", i})
+			}
 		}
 	}
 	workers := runtime.NumCPU()
 	if workers > 16 {
 		workers = 16
 	}
-	jobs := make(chan int)
+	jobs := make(chan job)
 	var wg sync.WaitGroup
 	for w := 0; w < workers; w++ {
 		wg.Add(1)
 		go func() {
 			defer wg.Done()
-			for idx := range jobs {
+			for j := range jobs {
 				func() {
 					defer func() {
 						if rec := recover(); rec != nil {
 							buf := make([]byte, 4096)
 							buf = buf[:runtime.Stack(buf, false)]
-							c.HarnessError("case %d panicked: %v\n%s", idx, rec, buf)
+							c.HarnessError("%s case %d panicked: %v\n%s", j.stream, j.idx, rec, buf)
 						}
 					}()
-					r := c.Rand("chain", idx)
-					k := &chainRun{c: c, r: r, cfg: genCase(r, idx, heights)}
+					if j.stream == "realpool" {
+						runRealPool(c, j.idx)
+						return
+					}
+					r := c.Rand("chain", j.idx)
+					k := &chainRun{c: c, r: r, cfg: genCase(r, j.idx, heights)}
 					k.run()
 				}()
 			}
 		}()
 	}
-	// the few long cases first, so that they do not form the tail
-	for _, idx := range idxs {
-		if idx%40 == 4 {
-			jobs <- idx
-		}
-	}
-	for _, idx := range idxs {
-		if idx%40 != 4 || len(idxs) == 1 {
-			jobs <- idx
-		}
+	for _, j := range jobsList {
+		jobs <- j
 	}
 	close(jobs)
 	wg.Wait()
 	if c.Replay() == "" {
 		evidencePanicProbe(c)
+		if c.Counter("realpool.blocks") == 0 {
+			c.HarnessError("the real-mempool stage produced no proposer block")
+		}
 	}
 	min := 10000
 	if c.Replay() != "" {
